@@ -15,7 +15,7 @@ from symx import core
 PID = "C02"
 EXPLANATION = (
     "The solver chooses HTTP version (1.0/1.1), method (GET/HEAD/POST/PUT), request body (none/bytes/chunked stream), "
-    "request Connection header (absent/close/keep-alive), response status (200/204/304/404), response body kind (empty, "
+    "request Connection header (absent/close/keep-alive), response status (200/204/304/404), reason phrase (default / one with inner runs of whitespace), response body kind (empty, "
     "bytes with Content-Length, chunked stream, stream of unknown length), force_close, and where each direction's "
     "bytes are cut into two reads. A real ClientSession talks to a real web.Application through two in-memory transports "
     "joined by a pump. Checked: the handler sees the method, path, query, marker header and body the client sent; the "
@@ -45,21 +45,23 @@ def exchange(ctx, version="1.1", methods=("GET", "HEAD", "POST", "PUT"), kinds=(
     status = ctx.pick("status", [200, 204, 304, 404])
     kind = ctx.pick("resp_body", list(kinds))
     force_close = ctx.flag("force_close")
+    # a reason phrase and a header value with inner runs of whitespace (to be delivered verbatim)
+    reason = ctx.pick("reason", [None, "Quota  exceeded\there"]) if status == 200 else None
     seen = []
 
     async def handler(request):
         body = await request.read()
         seen.append((request.method, request.path_qs, request.headers.get("X-Marker"), bytes(body)))
         tag = f"resp{len(seen)}".encode()
-        hdrs = {"X-Resp": f"r{len(seen)}"}
+        hdrs = {"X-Resp": f"r{len(seen)}", "X-Spaced": "a  b\tc"}
         if len(seen) > 1:
             return web.Response(status=200, body=tag, headers=hdrs)
         if kind == "empty":
-            resp = web.Response(status=status, headers=hdrs)
+            resp = web.Response(status=status, reason=reason, headers=hdrs)
         elif kind == "bytes":
-            resp = web.Response(status=status, body=tag, headers=hdrs)
+            resp = web.Response(status=status, reason=reason, body=tag, headers=hdrs)
         else:
-            resp = web.StreamResponse(status=status, headers=hdrs)
+            resp = web.StreamResponse(status=status, reason=reason, headers=hdrs)
             if kind == "chunked" and request.version >= (1, 1):
                 resp.enable_chunked_encoding()
             if force_close:
@@ -155,13 +157,14 @@ def exchange(ctx, version="1.1", methods=("GET", "HEAD", "POST", "PUT"), kinds=(
         try:
             async with session.request(m, f"http://h/p{i}?q={i}", **kw) as resp:
                 body = await resp.read()
-                results.append((i, resp.status, resp.headers.get("X-Resp"), bytes(body)))
+                results.append((i, resp.status, resp.headers.get("X-Resp"), bytes(body), resp.reason,
+                                resp.headers.get("X-Spaced")))
         except Exception as e:  # noqa: BLE001
-            results.append((i, "error", type(e).__name__, None))
+            results.append((i, "error", type(e).__name__, None, None, None))
 
     def fail(key, **kw):
         info = {"key": key, "version": version, "method": method, "req_body": req_body, "connection": conn_hdr,
-                "status": status, "resp_body": kind, "force_close": force_close, "cuts": [cut_c, cut_s],
+                "status": status, "reason": reason, "resp_body": kind, "force_close": force_close, "cuts": [cut_c, cut_s],
                 "seen": [list(map(str, s)) for s in seen], "results": [list(map(str, r)) for r in results]}
         info.update(kw)
         if links:
@@ -216,6 +219,10 @@ def exchange(ctx, version="1.1", methods=("GET", "HEAD", "POST", "PUT"), kinds=(
         return fail("response-status-or-headers-altered")
     if r1[3] != want_resp_body:
         return fail("response-body-altered", got=str(r1[3]))
+    if reason is not None and r1[4] != reason:
+        return fail("response-reason-altered", got=repr(r1[4]), sent=repr(reason))
+    if r1[5] != "a  b\tc":
+        return fail("response-header-value-altered", got=repr(r1[5]))
     # ---- agreement on connection persistence: each side's own decision, before closes propagate
     ln = links[0]
     loop.run_ready()
